@@ -606,6 +606,48 @@ def check_consumers(model, rep):
            'add_constant no longer names constants by the full nutils hash (a truncated or different key can bind a wrong constant)', statement='constant-name')
 
 
+def check_array_identity(model, rep):
+    """R17.8: (a) the ndarray branch of nutils_hash feeds an element-type tag and the raw bytes; the tag must be the dtype string of the very
+    array whose bytes follow - a tag taken from a converted dtype (newbyteorder, a kind letter) lets two arrays with the same raw bytes
+    but another byte order or width share a hash.  (b) the buffer-keyed memo types.lru_cache identifies an array view by address, strides,
+    shape and element type (= R03.8).  (c) a function is identified by its full source text or an explicit identifier: bytecode alone
+    (`__code__.co_code`) omits constants and names, so functions that differ only there (x*2 and x*3, sin and cos) would share a hash."""
+    f = model.func('types:nutils_hash')
+    br = [g for g in ast.walk(f.node) if isinstance(g, ast.If) and 'numpy.ndarray' in src(g.test)]
+    feeds = [c for g in br for c in ast.walk(g) if isinstance(c, ast.Call) and method_name(c) == 'update' and c.lineno < (g.orelse[0].lineno if g.orelse else 10**9)] if br else []
+    tag = [c for c in feeds if 'dtype' in src(c)]
+    raw = [c for c in feeds if 'tobytes' in src(c) or 'data.data' in src(c)]
+    if len(tag) != 1 or len(raw) != 1:
+        raise AnalysisError('nutils_hash: the ndarray branch (dtype tag + raw bytes) was not recognised')
+    arr = src(raw[0].args[0]).split('.tobytes')[0]
+    dts = [x for x in ast.walk(tag[0]) if isinstance(x, ast.Attribute) and x.attr == 'dtype']
+    def receiver_is_dtype(call):
+        v = call.func.value
+        while isinstance(v, ast.Attribute) and v.attr != 'dtype':
+            v = v.value
+        return isinstance(v, ast.Attribute) and v.attr == 'dtype'
+    converted = [x for x in ast.walk(tag[0]) if isinstance(x, ast.Call) and isinstance(x.func, ast.Attribute) and receiver_is_dtype(x)]
+    own = all(src(d.value) == arr for d in dts)
+    full = any(isinstance(x, ast.Attribute) and x.attr in ('str', 'descr') and isinstance(x.value, ast.Attribute) and x.value.attr == 'dtype' for x in ast.walk(tag[0]))
+    ok = own and full and not converted
+    rep.ob('R17.8', f.key, f.where(tag[0]), ok, f'the element-type tag is `{arr}.dtype.str`, the dtype of the array whose bytes are fed' if ok else
+           f'`{src(tag[0])[:80]}` tags the bytes of `{arr}` with ' + ('a converted dtype' if converted else 'something other than its own full dtype string') + ': two arrays with the same raw bytes but different byte order or '
+           'element type get the same hash (and a memoised function is served the result computed for the other)', statement='array-tag-matches-bytes')
+    from rules.c03 import check_array_memo_key, _Rename
+    check_array_memo_key(model, _Rename(rep, {'R03.8': 'R17.8'}))
+    hf = model.functions.get('types:hashable_function')
+    if hf is None:
+        raise AnalysisError('types.hashable_function not found')
+    weak = [x for x in ast.walk(hf.node) if isinstance(x, ast.Attribute) and x.attr in ('co_code', '__code__', '__name__', '__qualname__')]
+    strong = any(isinstance(x, ast.Attribute) and x.attr == 'co_consts' for x in ast.walk(hf.node)) and any(isinstance(x, ast.Attribute) and x.attr == 'co_names' for x in ast.walk(hf.node))
+    usesrc = any(isinstance(c, ast.Call) and src(c.func) == 'inspect.getsource' for c in ast.walk(hf.node))
+    bad = [x for x in weak if x.attr in ('co_code', '__code__') and not strong]
+    ok = usesrc and not bad
+    rep.ob('R17.8', hf.key, hf.where(bad[0]) if bad else hf.where(), ok, 'a function without explicit identifier is identified by its full source text (inspect.getsource); no weaker fallback' if ok else
+           f'`{src(bad[0]) if bad else "?"}` identifies a function by its bytecode only: constants and global names are not part of it, so `lambda x: x*2.` and `lambda x: x*3.`, or wrappers of numpy.sin and numpy.cos, '
+           'get one hash and compare equal', statement='function-identity')
+
+
 def run(model, rep, tier):
     rep.explanation = (
         'R17.1 determinism taint over every function that streams into a hashlib object or defines __nutils_hash__ (hash()/id() results and unsorted dict/set iteration '
@@ -620,6 +662,7 @@ def run(model, rep, tier):
     rep.rule('R17.4', 'canonicalisation and interning through one key')
     rep.rule('R17.5', 'nutils_hash branch components, tag, normalisation order')
     rep.rule('R17.6', 'hash consumers use the full hash of all inputs')
+    rep.rule('R17.8', 'array identity: dtype tag matches the hashed bytes; buffer memo keyed by address, strides, shape, type; functions identified by full source')
     rep.rule('R17.7', 'type identity in the hash is module + qualified name, not the bare name')
     funcs = hasher_functions(model)
     rep.unit('hasher_functions', len(funcs))
@@ -631,6 +674,7 @@ def run(model, rep, tier):
     check_state_coverage(model, rep)
     check_canonical(model, rep)
     check_consumers(model, rep)
+    check_array_identity(model, rep)
     rep.require('R17.2', 15)
     rep.require('R17.5', 14)
     rep.require('R17.3', 20)
